@@ -59,6 +59,10 @@ CHECKS = {
    technique="exhaustive enumeration of write sequences x arrival orders x batchings through the real update feed (UpdatesManager / batch_candidates) on a real node, with the last-notification oracle evaluated at every quiescent point",
    text="Every sequence of 3 (thorough 4) operations {insert/update/delete key 1, insert/delete key 2} starting with an insert, observed (a) on the writing node and (b) on a second node that receives the resulting versions in every arrival order, each alone and all in one batch (thorough: every batching), through process_multiple_changes and the buffered-apply path; plus cold-feed cases that leave the 600 ms aggregation window in place. At every quiescent point: every key whose row changed has a notification, and the last notification for a key says 'delete' exactly when the row is absent.",
    note="Quiescent points are closed by a sentinel row written on the observing node (FIFO feed). The cache-trimming path (>2000 keys) is not reached."),
+ "C15": dict(engine="schema", design="§5 C15",
+   technique="exhaustive enumeration of schema-submission sequences through the real api_v1_db_schema on a database holding rows, metamorphic invariants after every submission and a restart through the real setup() after every sequence",
+   text="23 submissions (new table, added nullable / NOT NULL-with-default columns, index added / changed / dropped, resubmission, and forbidden edits: NOT NULL without default, explicit DROP TABLE, dropped column, changed type / default / nullability, changed or added primary key, UNIQUE index, foreign key, syntax error at statement 1/2/3, valid+invalid table pairs in both orders); every sequence of <= 2 (thorough 3) starting with any single submission or an allowed one. Accepted => tables/columns/rows/values only grow, existing column definitions unchanged, replicated data and db_version untouched, resubmission succeeds and changes nothing. Rejected => sqlite_schema, __corro_schema, table contents, crsql_changes and agent.schema() identical to before. Always-forbidden edits are rejected in every state; additive edits are accepted on the base schema; after restart agent.schema() equals the pre-restart value (column order included).",
+   note="A crash inside the apply transaction is SQLite's own atomicity and is not enumerated. Two base tables, one with an index and rows."),
  "C18": dict(engine="members", design="§5 C18",
    technique="explicit-state BFS (stateright) whose transition function calls the real Members::{add_member,remove_member,add_rtt}; invariants from a fold-by-newest reference model evaluated in every reachable state",
    text="All reachable states of the member table for 2 actors (3 and 2 identity timestamps), every assignment of address/cluster to identities (64 tables quick, 256 thorough), up/down notifications in any admissible order, RTT samples {1,(40),1000} ms for current and former addresses; presence, identity (ts/address/cluster) and ring/ring0 invariants in every state; shortest counterexample re-derived by FIFO search. 3.4e5 states quick, 3.0e7 thorough, to fix-point.",
@@ -114,6 +118,7 @@ def main():
             {"name": "localtx", "path": "harness/src/bin/localtx.rs", "serves_properties": ["C07"], "kind_free_text": "request-sequence enumeration against a reference model"},
             {"name": "locks", "path": "harness/src/bin/locks.rs", "serves_properties": ["C20"], "kind_free_text": "stateless DFS over hand-polled SplitPool requesters"},
             {"name": "subs", "path": "harness/src/bin/subs.rs", "serves_properties": ["C11", "C13", "C14"], "kind_free_text": "query x history enumeration with real matchers / update feeds"},
+            {"name": "schema", "path": "harness/src/bin/schema.rs", "serves_properties": ["C15"], "kind_free_text": "schema-submission sequence enumeration with metamorphic invariants"},
             {"name": "members", "path": "harness/src/bin/members.rs", "serves_properties": ["C18"], "kind_free_text": "stateright BFS over the real Members methods"},
             {"name": "repl", "path": "harness/src/bin/repl.rs", "serves_properties": ["C01", "C03", "C05", "C06"], "kind_free_text": "replay-from-history explicit-state BFS over 2-3 real nodes"},
             {"name": "pure", "path": "harness/src/bin/pure.rs", "serves_properties": ["C04", "C08"], "kind_free_text": "exhaustive small-scope enumeration of pure functions against set models"},
